@@ -46,6 +46,8 @@ type FuncContract struct {
 	Trusted  bool // contract assumed, body not verified (external / out of reach); listed in evidence
 	Pure     bool // no heap effects; callers keep their heap
 	Requires []*Clause
+	Relies   []*Clause // rely conditions on lock-guarded state, assumed after every lock acquisition
+	OvfWrap  bool      // int mode: signed arithmetic wraps (Go semantics) instead of raising an overflow obligation
 	Ensures  []*Clause
 	Lets     []*Clause
 	Assigns  []string // pointer expressions; nil = unspecified (conservative), ["nothing"]
@@ -104,7 +106,7 @@ func splitTags(s string) []string {
 	return out
 }
 
-var keywords = map[string]bool{"func": true, "mode": true, "props": true, "inline": true, "requires": true, "let": true,
+var keywords = map[string]bool{"func": true, "mode": true, "props": true, "inline": true, "requires": true, "relies": true, "ovfwrap": true, "let": true,
 	"assigns": true, "ensures": true, "loop": true, "spec": true, "end": true, "lemma": true, "fntype": true,
 	"guard": true, "chan": true, "closer": true, "trusted": true, "safe": true, "shape": true, "note": true, "pure": true, "events": true, "freshresult": true, "maxpaths": true}
 
@@ -293,11 +295,16 @@ func ParseContracts(lines, poss []string) (*Contracts, error) {
 						cur.Assigns = append(cur.Assigns, a)
 					}
 				}
-			case "requires", "ensures":
+			case "ovfwrap":
+				cur.OvfWrap = true
+			case "requires", "ensures", "relies":
 				c := &Clause{Kind: first, Tags: tags, Raw: rest, Line: pos}
-				if first == "requires" {
+				switch first {
+				case "requires":
 					cur.Requires = append(cur.Requires, c)
-				} else {
+				case "relies":
+					cur.Relies = append(cur.Relies, c)
+				default:
 					cur.Ensures = append(cur.Ensures, c)
 				}
 				lastClause = c
@@ -393,6 +400,9 @@ func ParseContracts(lines, poss []string) (*Contracts, error) {
 	}
 	for _, fc := range cs.Funcs {
 		for _, c := range fc.Requires {
+			fix(c)
+		}
+		for _, c := range fc.Relies {
 			fix(c)
 		}
 		for _, c := range fc.Ensures {
